@@ -1316,7 +1316,11 @@ func (s *PrintCtx) appendError(err error) {
 func (s *PrintCtx) appendValue(val any) {
 	switch z := val.(type) {
 	case nil:
-		s.pcAppendStringValue("<nil>")
+		if s.jsonMode {
+			s.pcAppendStringValue("null") // a bare <nil> is not a JSON value
+		} else {
+			s.pcAppendStringValue("<nil>")
+		}
 
 	case ObjectSerializer:
 		// pc.useColor = !s.noColor
